@@ -193,8 +193,8 @@ func init() {
 	add(&simkit.Check{
 		Property:       "C18",
 		Parts:          []simkit.Part{{Name: "clisim-c18", Fn: clisim.C18, ProcessLevel: true, NeedsCLI: true, Runs: map[string]int{"quick": 500, "thorough": 15000}}},
-		Rule:           "one run = a directory evolved file by file (2-6 files): each file is either derived by `migrate diff` from one schema edit (so SQLite's rebuild procedure appears when it would for a user) or hand-written from 1-3 operations (CREATE TABLE, ADD COLUMN, CREATE INDEX, DROP TABLE, ALTER TABLE DROP COLUMN of a stored or virtual column, rebuild that omits a column, additive rebuild, create-and-drop of a temporary table); then `migrate lint --latest N` for a drawn N; the reference model tracks which tables and non-virtual columns existed before each file; distinct = distinct trace hash",
-		RequiredProbes: []string{"file-derived-by-migrate-diff", "diff-generated-rebuild", "temporary-table-created-and-dropped", "hand-written-rebuild-omitting-column", "additive-rebuild", "virtual-column-dropped", "additive-file-in-window"},
+		Rule:           "one run = a directory evolved file by file (2-6 files): each file is either derived by `migrate diff` from one schema edit (so SQLite's rebuild procedure appears when it would for a user) or hand-written from 1-3 operations (CREATE TABLE, ADD COLUMN, CREATE INDEX, DROP TABLE, ALTER TABLE DROP COLUMN of a stored or virtual column, rebuild that omits a column, additive rebuild, create-and-drop of a temporary table or column, drop of an existing column / table followed by an add / create of the same name); then `migrate lint --latest N` for a drawn N; the reference model tracks which tables and non-virtual columns existed before each file; distinct = distinct trace hash",
+		RequiredProbes: []string{"file-derived-by-migrate-diff", "diff-generated-rebuild", "temporary-table-created-and-dropped", "hand-written-rebuild-omitting-column", "additive-rebuild", "virtual-column-dropped", "additive-file-in-window", "column-dropped-and-re-added", "table-dropped-and-re-created", "temporary-column-added-and-dropped"},
 		RequiredFaults: []string{"destructive/DS102", "destructive/DS103"},
 		Real:           []string{"the whole CLI binary (migrate lint with DevLoader, sqlcheck destructive analyzer, sqlitecheck, migrate diff)", "SQLite engine (dev database file)"},
 		Stub:           []string{"none"},
